@@ -1,6 +1,7 @@
 CONSTANTS
   Threads = {1, 2, 3, 4}
   Keys = {1, 2, 3, 4, 5, 6}
+  DirectKeys = {6}
   DepsOpts = {}
   LoadsOpts = {}
   SharedOpts = {}
